@@ -125,6 +125,28 @@ async def _history(loop, ports, faults, nsess, events, info):
         elif verb == "PWD":
             code, _ = await raw.cmd("PWD")
             trace.append((idx % nsess, verb, code))
+        elif verb == "PIPELINED":
+            # two passive commands in one segment: still one listener, one port, two answers
+            raw.send(b"PASV\r\nEPSV\r\n")
+            codes = []
+            for _ in range(2):
+                code, lines = await raw.reply()
+                codes.append(code)
+                if code in ("227", "229"):
+                    port = harness.parse_passive(code, lines[-1])
+                    if s["port"] is not None and port != s["port"]:
+                        raise Violation(f"C11/{info['tag']}/pipelined_passive_commands_open_two_listeners", dict(ports=[s["port"], port], trace=trace[-6:]))
+                    s["port"] = port
+                    raw.passive_port = port
+                elif code in ("421", "EOF"):
+                    s["alive"] = False
+                    raw.close()
+                    break
+            trace.append((idx % nsess, verb, codes))
+        elif verb == "REUSER":
+            # logging in again does not end the session: its listener (and port) stay with it
+            code, _ = await raw.cmd("USER anonymous")
+            trace.append((idx % nsess, verb, code))
         elif verb == "QUIT":
             code, _ = await raw.cmd("QUIT")
             raw.close()
@@ -166,6 +188,9 @@ HISTORIES = [
     [(0, "PASV"), (1, "EPSV"), (2, "EPSV"), (0, "PASV"), (0, "LIST"), (1, "QUIT"), (2, "DROP"), (1, "EPSV"), (0, "EPSV"), (0, "QUIT")],
     [(0, "EPSV"), (0, "DROP"), (1, "PASV"), (2, "PASV"), (1, "LIST"), (2, "EPSV"), (1, "DROP"), (2, "LIST"), (2, "QUIT"), (0, "PWD")],
     [(0, "EPSV+FIN"), (1, "EPSV"), (2, "PASV+FIN"), (1, "EPSV"), (1, "LIST"), (1, "QUIT"), (0, "PWD"), (2, "PWD"), (1, "PWD"), (0, "PWD")],
+    [(0, "PASV"), (0, "REUSER"), (1, "EPSV"), (0, "EPSV"), (0, "LIST"), (1, "REUSER"), (1, "DROP"), (2, "EPSV"), (0, "QUIT"), (2, "REUSER"),
+     (2, "PASV"), (2, "QUIT")],
+    [(0, "PIPELINED"), (1, "PIPELINED"), (0, "LIST"), (1, "QUIT"), (2, "EPSV"), (0, "PIPELINED"), (0, "DROP"), (2, "PIPELINED"), (2, "LIST"), (2, "QUIT")],
 ]
 
 
@@ -282,7 +307,7 @@ def replay_startup(case):
 
 
 # ---------------------------------------------------------------- Hypothesis histories
-EVENT = st.tuples(st.integers(0, 3), st.sampled_from(["PASV", "EPSV", "EPSV", "LIST", "PWD", "QUIT", "DROP", "PASV+FIN", "EPSV+FIN"]))
+EVENT = st.tuples(st.integers(0, 3), st.sampled_from(["PASV", "EPSV", "EPSV", "LIST", "PWD", "QUIT", "DROP", "PASV+FIN", "EPSV+FIN", "REUSER", "PIPELINED"]))
 FAULTS = st.lists(st.tuples(st.sampled_from(PORTS), st.integers(1, 4), st.sampled_from([errno.EADDRINUSE, errno.EADDRINUSE, errno.EACCES])),
                   max_size=6, unique_by=lambda x: (x[0], x[1]))
 MACHINE = st.tuples(st.integers(0, 3), st.integers(1, 4), st.lists(EVENT, min_size=2, max_size=16), FAULTS,
